@@ -221,6 +221,12 @@ def rule_Q2(ctx):
             seen["unknown"] += 1
             if app != [("track.unparsed", mi[1])] or title_set:
                 ok_unknown, det_unknown = False, f"an unrecognised line does {app}"
+        elif app or title_set:
+            # a continuing path that is none of INDEX / TITLE / unknown and still changes the track: some other line kind is given a meaning
+            ok_unknown, det_unknown = False, f"a line that is neither an INDEX nor a TITLE line changes the track ({app or 'title'}): it is not `recorded and skipped`"
+        others_ = {m_.group(1) for c_, t_, _n in pr.conds for m_ in re.finditer(r"(\b[A-Za-z_][A-Za-z_0-9]*)\.(?:match|search|fullmatch)\(", c_)} - {"_INDEX_LINE_REGEX", "_TITLE_LINE_REGEX", "_TRACK_LINE_REGEX", "re"}
+        if others_:
+            ok_unknown, det_unknown = False, f"lines inside a track are also tried against {sorted(others_)}: such a line is interpreted instead of being recorded and skipped"
     ctx.ob("Q2", loop, "an unrecognised line inside a track is recorded and skipped (the loop continues)", ok_unknown and seen["unknown"] >= 1,
            det_unknown or ("" if seen["unknown"] else "no continuing path stores the unknown line"), inst="unknown-line-continues")
     ctx.ob("Q2", loop, "INDEX and TITLE lines are recognised inside a track", seen["index"] >= 1 and seen["title"] >= 1, f"{seen}", inst="index-title")
